@@ -23,31 +23,24 @@ type verifC18Call struct {
 	times []int64
 }
 
-// VerifC18RecordBatches: a series reaches the range-vector cursor in several record batches. The cursor
-// (same-window test between batches, per-batch window index) and the slice reducer with its carry-over
-// buffer (floatSliceReducer: rate, increase, delta, ...) hand every evaluation step exactly the samples
-// with step-range <= t <= step - the window Prometheus evaluates - once, in step order, however the samples
-// are cut into batches. The function applied to the window is a recorder, so only sample selection is
-// checked here (the arithmetic is VerifC18RateExtrapolation).
-func VerifC18RecordBatches() {
+// verifC18Scenario: the symbolic query grid and the samples of one series cut into record batches.
+func verifC18Scenario() (recs [][]int64, all []int64, start, end, step, width int64) {
 	tier := int64(verifrt.Tier())
 	nrec := 2 + verifrt.Choose("batches", 1+verifrt.Tier())
-	step := int64(1 + verifrt.Choose("step", 2+verifrt.Tier()))
-	width := verifrt.Int64("range")
+	step = int64(1 + verifrt.Choose("step", 2+verifrt.Tier()))
+	width = verifrt.Int64("range")
 	verifrt.Assume(width >= 1 && width < 4+4*tier)
 	// realistic instants: nanoseconds far from 1970 (populateByLast compares a buffer index with a
 	// timestamp, which only matters within a few nanoseconds of the epoch - outside this claim)
 	const base = int64(1700000000) * 1000000000
 	s0 := verifrt.Int64("start")
 	verifrt.Assume(s0 >= 0 && s0 < 2+2*tier)
-	start := base + s0
+	start = base + s0
 	nsteps := verifrt.Int64("nsteps")
 	verifrt.Assume(nsteps >= 0 && nsteps < 4+4*tier)
-	end := start + nsteps*step
+	end = start + nsteps*step
 
 	// the samples: strictly ascending over all batches, inside the queried interval [start-range, end]
-	var recs [][]int64
-	var all []int64
 	prev := start - width - 1
 	for k := 0; k < nrec; k++ {
 		n := 1 + verifrt.Choose("rows", 2)
@@ -61,18 +54,11 @@ func VerifC18RecordBatches() {
 		all = append(all, ts...)
 	}
 
-	var calls []verifC18Call
-	fm := func(prevT, currT []int64, prevV, currV []float64, ts int64, count int, param *ReducerParams) (float64, bool) {
-		w := append(append([]int64(nil), prevT...), currT...)
-		if len(w) == 0 {
-			return 0, true // the reducer also offers empty windows between two batches; every function answers "no value"
-		}
-		calls = append(calls, verifC18Call{ts, w})
-		verifrt.Observe("evaluated", ts-base)
-		verifrt.Observe("samples", int64(len(w)))
-		return float64(count), false
-	}
-	reducer := newFloatSliceReducer(floatPromRateReduce, fm)
+	return
+}
+
+// verifC18Drive feeds the batches to the reducer the way aggregateCursor and RangeVectorCursor.reduce do.
+func verifC18Drive(reducer Reducer, recs [][]int64, start, end, step, width int64) *record.Record {
 	opt := &query.ProcessorOptions{}
 	opt.Step = time.Duration(step)
 	cat := &verifC18Catalog{opt: opt}
@@ -92,6 +78,31 @@ func VerifC18RecordBatches() {
 		reducer.Aggregate(&ReducerEndpoint{InputPoint: EndPointPair{Record: rec, Ordinal: 0}, OutputPoint: EndPointPair{Record: out, Ordinal: 0}}, c.reducerParams)
 		c.resetReducerParams()
 	}
+
+	return out
+}
+
+// VerifC18RecordBatches: a series reaches the range-vector cursor in several record batches. The cursor
+// (same-window test between batches, per-batch window index) and the slice reducer with its carry-over
+// buffer (floatSliceReducer: rate, increase, delta, ...) hand every evaluation step exactly the samples
+// with step-range <= t <= step - the window Prometheus evaluates - once, in step order, however the samples
+// are cut into batches. The function applied to the window is a recorder, so only sample selection is
+// checked here (the arithmetic is VerifC18RateExtrapolation).
+func VerifC18RecordBatches() {
+	recs, all, start, end, step, width := verifC18Scenario()
+	const base = int64(1700000000) * 1000000000
+	var calls []verifC18Call
+	fm := func(prevT, currT []int64, prevV, currV []float64, ts int64, count int, param *ReducerParams) (float64, bool) {
+		w := append(append([]int64(nil), prevT...), currT...)
+		if len(w) == 0 {
+			return 0, true // the reducer also offers empty windows between two batches; every function answers "no value"
+		}
+		calls = append(calls, verifC18Call{ts, w})
+		verifrt.Observe("evaluated", ts-base)
+		verifrt.Observe("samples", int64(len(w)))
+		return float64(count), false
+	}
+	verifC18Drive(newFloatSliceReducer(floatPromRateReduce, fm), recs, start, end, step, width)
 
 	// every evaluation step with a non-empty window is evaluated once, in order, on exactly its window
 	k := 0
@@ -118,5 +129,41 @@ func VerifC18RecordBatches() {
 		k++
 	}
 	verifrt.Assert(k == len(calls), "an evaluation step is evaluated twice, or one without samples is evaluated")
+	verifrt.Reach("end")
+}
+
+// VerifC18RecordBatchesInc: the same for the incremental reducer behind sum/count/min/max/avg/last_over_time
+// (floatIncAggReducer with its carried partial result and carry-over buffer), instantiated with "count the
+// samples": every evaluation step whose window holds samples yields one output point, in step order, whose
+// value is the number of samples with step-range <= t <= step - however the samples are cut into batches.
+func VerifC18RecordBatchesInc() {
+	recs, all, start, end, step, width := verifC18Scenario()
+	fr := func(times []int64, values []float64, s, e int) (int64, float64, bool) {
+		if s >= e {
+			return 0, 0, true
+		}
+		return times[e-1], float64(e - s), false
+	}
+	fm := func(prev, curr float64, prevCount, currCount int) (float64, int) { return prev + curr, prevCount + currCount }
+	out := verifC18Drive(newFloatIncReducer(fr, fm), recs, start, end, step, width)
+	ts, vs := out.Times(), out.ColVals[0].FloatValues()
+	k := 0
+	for t := start; t <= end; t += step {
+		n := 0
+		for _, s := range all {
+			if s >= t-width && s <= t {
+				n++
+			}
+		}
+		if n == 0 {
+			continue
+		}
+		verifrt.Assert(k < len(ts) && ts[k] == t, "an evaluation step with samples in its window has no output point (or points are out of order)")
+		if k < len(ts) && k < len(vs) && ts[k] == t {
+			verifrt.Assert(vs[k] == float64(n), "an evaluation step does not aggregate exactly the samples of its window")
+		}
+		k++
+	}
+	verifrt.Assert(k == len(ts), "an evaluation step yields two output points, or one without samples yields a point")
 	verifrt.Reach("end")
 }
